@@ -27,7 +27,9 @@ def tolerated(case, i, impl, model):
 
 def gen_cases(rng, tier):
     n = 400 if tier == "thorough" else 80
-    cases = [_hist.gen_history_case(rng, rng.randint(8, 26), refless_script=(i % 5 == 4))
+    cases = [_hist.gen_history_case(rng, rng.randint(8, 26), refless_script=(i % 5 == 4),
+                                    undefined_units=(.6 if i % 3 == 0 else 0.0),
+                                    undefined_multiples=True)
              for i in range(n)]
     # currency declarations and money-converter updates that are rejected
     from props import C08, C11
